@@ -101,12 +101,12 @@ func c33Run(r *simkit.Run) {
 	r.OnEnd(func() { cancel(nil) })
 
 	var (
-		waitErr     error
-		waitSeq     int64
-		waited      bool
-		cancelSeq   int64
-		cbErrs      []error
-		submitted   int
+		waitErr   error
+		waitSeq   int64
+		waited    bool
+		cancelSeq int64
+		cbErrs    []error
+		submitted int
 	)
 
 	doCancel := func() {
@@ -427,11 +427,11 @@ func c33Batch(r *simkit.Run) {
 
 func init() {
 	simkit.Register(&simkit.Harness{
-		ID:   "C33",
-		Run:  c33Run,
-		Real: []string{"util.BaseJobWorker", "util.NewErrCallbackJobWorker", "util.RunJobWorker", "util.RunErrCallbackJobWorker", "util.BatchWork", "golang.org/x/sync/semaphore"},
-		Stub: []string{"jobs (harness closures that yield, sleep on the fake clock, fail or obey cancellation)"},
-		Rule: "each run draws worker kind, job count 1..12, semaphore 1..8, failing jobs, job sleeps on the fake clock, an external cancellation at a drawn point, or a BatchWork (size 1..24, limit 1..10, exact multiples forced in a third of runs, failing job/pref); the kernel picks the interleaving of job goroutines, producer and canceller. distinct = distinct event-log hash; non-trivial = non-zero choice consumed and oracle evaluated",
+		ID:          "C33",
+		Run:         c33Run,
+		Real:        []string{"util.BaseJobWorker", "util.NewErrCallbackJobWorker", "util.RunJobWorker", "util.RunErrCallbackJobWorker", "util.BatchWork", "golang.org/x/sync/semaphore"},
+		Stub:        []string{"jobs (harness closures that yield, sleep on the fake clock, fail or obey cancellation)"},
+		Rule:        "each run draws worker kind, job count 1..12, semaphore 1..8, failing jobs, job sleeps on the fake clock, an external cancellation at a drawn point, or a BatchWork (size 1..24, limit 1..10, exact multiples forced in a third of runs, failing job/pref); the kernel picks the interleaving of job goroutines, producer and canceller. distinct = distinct event-log hash; non-trivial = non-zero choice consumed and oracle evaluated",
 		Assumptions: []string{"'first error' is the first job to return an error in kernel order; an external cancellation competes with job errors by the same order"},
 	})
 }
